@@ -260,11 +260,23 @@ def closed_models(run, only):
                              coverage=thorough, timeout=1500)
         if r.coverage_zero:
             raise vlib.InfraError("vacuous round model, actions never taken: %s" % r.coverage_zero)
-        for cfg in WEAK_ROUNDS:
-            weak = run.tlc("BudgetRounds", cfg, workers=2, heap="2g", expect_violation=True)
+        for wcfg in WEAK_ROUNDS:
+            weak = run.tlc("BudgetRounds", wcfg, workers=2, heap="2g", expect_violation=True)
             if weak.violated != "Inv_C05_StartWithinBudget":
-                raise vlib.InfraError("spec mutation %s not rejected by TLC (got %s)" % (cfg, weak.violated))
+                raise vlib.InfraError("spec mutation %s not rejected by TLC (got %s)" % (wcfg, weak.violated))
         run.notes.append("round-model mutations rejected by TLC with Inv_C05_StartWithinBudget: " + ", ".join(WEAK_ROUNDS))
+        if thorough:
+            # beyond the exhaustive bound: every environment action on every node, 5 rounds - random deep behaviours of the
+            # closed model checked against the same invariants (a failure here is a model problem: exit 2)
+            big = cfg.replace("EnvOf <- MC_EnvOf", "EnvOf <- MC_EnvAll").replace("MaxRounds = 3", "MaxRounds = 5")
+            open(os.path.join(run.specdir, "BudgetRounds_MCbig_run.cfg"), "w").write(big)
+            r = run.tlc("BudgetRounds", "BudgetRounds_MCbig_run.cfg", workers=4, heap="3g", simulate="num=4000", depth=50,
+                        timeout=900)
+            if not r.ok:
+                raise vlib.InfraError("round model (all environment actions, simulation) violates %s" % r.violated)
+            run.models.append({"module": "BudgetRounds", "cfg": "MC with every environment action on every node, 5 rounds "
+                               "(simulation, 4000 behaviours of depth 50)", "generated": r.generated, "violated": r.violated,
+                               "wall_s": round(r.wall, 1)})
 
 
 def check(run):
